@@ -33,7 +33,7 @@ bytes are the same whenever they are drained.
 
 ASSUMPTIONS = ['OwningIovec delivers what was pushed (C03/C04)']
 
-FLOORS = {'R2.1': 4, 'R2.2': 4, 'R2.3': 4, 'R2.4': 8, 'R2.5': 8, 'R2.6': 3, 'R2.7': 30}
+FLOORS = {'R2.1': 4, 'R2.2': 4, 'R2.3': 4, 'R2.4': 8, 'R2.5': 8, 'R2.6': 3, 'R2.7': 1}
 
 ES = 'hcobs::encoder::EncoderState'
 
@@ -337,6 +337,49 @@ def check_find_stuff(cx):
         ok_s = ret.kind == 'call' and ret.op.endswith('::eq') and len(ret.args) == 2 and any(k.info.get('ref_bytes') == seq for k in ret.consts()) and \
             any(a.strip().kind == 'param' and a.strip().info['i'] == 2 for a in ret.args) and len(list(ret.calls())) == 1
         cx.check(ok_s, 'scan:first-match', fn, None, 'position(|w| w == STUFF_SEQUENCE): the index of the first equal window, None only when exhausted',
+                 fail_detail='the result is not (index of the first window == STUFF_SEQUENCE | None at exhaustion)')
+        return
+    rnx = [cs for cs in fn.calls() if cs.callee.endswith('Range<A> as std::iter::Iterator>::next') or cs.callee.endswith('Range<usize> as std::iter::Iterator>::next')]
+    if len(heads) == 1 and len(rnx) == 1 and not list(fn.calls('windows')):
+        # index-loop spelling: for i in 0..len.saturating_sub(1) { if bytes[i..i + 2] == STUFF_SEQUENCE { return Some(i) } } None
+        def seq_len(e, minus=0):
+            e = e.strip()
+            if e.is_const_int(2 - minus):
+                return True
+            if minus and e.kind == 'binop' and e.op == 'Sub' and e.b.is_const_int(minus):
+                return seq_len(e.a)
+            return e.kind == 'call' and e.op.endswith('len') and [k.info.get('ref_bytes') for k in e.args[0].consts()] == [seq] and not list(e.args[0].calls())
+        it = rnx[0].arg(0)
+        rng = [n for n in it.walk() if n.kind == 'agg' and n.info.get('variant') == 'Range' and len(n.args) == 2]
+        ok_it = len(rng) == 1 and rng[0].args[0].is_const_int(0) and is_call(rng[0].args[1], 'saturating_sub') and \
+            is_call(rng[0].args[1].strip().args[0], 'len') and rng[0].args[1].strip().args[0].strip().args[0].strip().kind == 'param' and \
+            seq_len(rng[0].args[1].strip().args[1], minus=1) and not any(c.op.rsplit('::', 1)[-1] in ('rev', 'skip', 'step_by', 'take', 'filter') for c in it.calls())
+        cx.check(True, 'scan:one-loop', fn, None, 'a single loop over the window start positions')
+        cx.check(ok_it, 'scan:all-windows', fn, rnx[0].loc(), 'iterates i over 0..len.saturating_sub(1): every window start of the whole argument, in order',
+                 fail_detail='the scan does not run over every window of the whole argument')
+        somes = [pos for pos, st in fn.statements() if st['k'] == 'assign' and st['pl']['l'] == 0 and st['rv']['k'] == 'agg' and st['rv']['variant'] == 'Some']
+        nones = [pos for pos, st in fn.statements() if st['k'] == 'assign' and st['pl']['l'] == 0 and st['rv']['k'] == 'agg' and st['rv']['variant'] == 'None']
+        ok_s = len(somes) == 1 and len(nones) == 1
+        if ok_s:
+            pos = somes[0]
+            v = fn.operand_expr(fn.blocks[pos.bb]['st'][pos.idx]['rv']['ops'][0]).strip()
+            idx_ok = v.kind == 'proj' and any(c.pos == rnx[0].pos for c in v.calls()) and not any(n.kind == 'binop' for n in v.walk() if n is not v and n.kind == 'binop' and n.op != 'Sub')
+            idx_ok = v.kind == 'proj' and any(c.pos == rnx[0].pos for c in v.calls()) and show(v).count('Add(') == 0
+            eq_ok = False
+            for e, val, edge in fn.facts_at(pos.bb):
+                x = e.strip()
+                if val is True and x.kind == 'call' and x.op.endswith('::eq') and any(k.info.get('ref_bytes') == seq for a in x.args for k in a.consts() if not a.has_call('index')):
+                    for a in x.args:
+                        a = a.strip()
+                        if is_call(a, 'Index<I>>::index') and a.args[0].strip().kind == 'param':
+                            r = a.args[1].strip()
+                            if r.kind == 'agg' and r.info.get('variant') == 'Range' and show(r.args[0].strip()) == show(v):
+                                hi = r.args[1].strip()
+                                if hi.kind == 'binop' and hi.op == 'Add' and show(hi.a.strip()) == show(v) and seq_len(hi.b):
+                                    eq_ok = True
+            none_ok = any(e.kind == 'discr' and val == ('in', frozenset([0])) and any(c.pos == rnx[0].pos for c in e.calls()) for e, val, edge in fn.facts_at(nones[0].bb))
+            ok_s = idx_ok and eq_ok and none_ok
+        cx.check(ok_s, 'scan:first-match', fn, None, 'Some(i) exactly at the first i with bytes[i..i+2] == STUFF_SEQUENCE, None only when exhausted',
                  fail_detail='the result is not (index of the first window == STUFF_SEQUENCE | None at exhaustion)')
         return
     cx.check(len(heads) == 1, 'scan:one-loop', fn, None, 'a single loop', fail_detail='%d loops: not a plain linear scan (blocks skipped or searched separately can hide a sequence that straddles them)' % len(heads))
